@@ -440,8 +440,19 @@ def _real_scene(what, kind, variant, N, box, s, widths, radius, per_axis, V):
         X, Y = np.meshgrid(cen[h] - bc[h], cen[v] - bc[v], indexing="ij")
         exp2 = Path(V).contains_points(np.column_stack((X.ravel(), Y.ravel()))).reshape(X.shape)
         exp = np.broadcast_to(np.expand_dims(exp2, axis), gshape)
-        bad = np.argwhere(got != exp)
-        return len(bad) > 0, f"{where}, vertices {V.tolist()}: real mask differs from Path(V).contains_points(cell centre - box centre) at {len(bad)} cells" + (f", first {bad[0].tolist()}" if len(bad) else "")
+        # cell centres (numerically) on a polygon edge are not judged: matplotlib's answer there is
+        # a rounding artefact and not translation invariant
+        pts = np.stack((X, Y), axis=-1)
+        dist = np.full(X.shape, np.inf)
+        for m in range(len(V)):
+            a0, b0 = V[m], V[(m + 1) % len(V)]
+            ab = b0 - a0
+            t = np.clip(((pts - a0) @ ab) / max(float(ab @ ab), 1e-300), 0.0, 1.0)
+            dist = np.minimum(dist, np.linalg.norm(pts - (a0 + t[..., None] * ab), axis=-1))
+        scale_len = max(float(np.abs(V).max()), 1e-300)
+        judged = np.broadcast_to(np.expand_dims(dist > 1e-9 * scale_len, axis), gshape)
+        bad = np.argwhere((got != exp) & judged)
+        return len(bad) > 0, f"{where}, vertices {V.tolist()}: real mask differs from Path(V).contains_points(cell centre - box centre) at {len(bad)} of {int(judged.sum())} judged cells" + (f", first {bad[0].tolist()}" if len(bad) else "")
     try:
         got = np.broadcast_to(got, gshape)
     except ValueError:
@@ -504,7 +515,7 @@ def replay(key, obligation, witness):
                 ext.append(s * (box[a][1] - box[a][0]))
         h, v = [a for a in range(3) if a != int(variant)]
         if V is None or V.shape != (4, 2) or np.ptp(V[:, 0]) == 0 or np.ptp(V[:, 1]) == 0:
-            V = np.array([[-0.3, -0.4], [0.45, -0.35], [0.2, 0.4], [-0.4, 0.25]]) * np.array([ext[h], ext[v]])
+            V = np.array([[-0.31, -0.43], [0.47, -0.36], [0.23, 0.41], [-0.42, 0.27]]) * np.array([ext[h], ext[v]])
         return V
 
     attempts = []
